@@ -3,6 +3,7 @@
 //!   P:<msg>:<ad>:<tag>  push        K / k  rekey push / pull stream      D  deliver next in order
 //!   Wi:<idx>:<ad|=>  pull pushed ciphertext #idx (with other AD)   Wf:<idx>:<bit>  … with one bit flipped
 //!   X:<ct>:<ad>  pull literal bytes   S  report both raw states
+//!   Ds:<k>  deliver next in order into a message buffer k bytes too small (classic API; object API: ordinary delivery)
 use crate::util::*;
 use crate::Ans;
 use dryoc::classic::crypto_secretstream_xchacha20poly1305::*;
@@ -15,6 +16,11 @@ const SENT: u8 = 0xA5;
 trait Engine {
     fn push(&mut self, m: &[u8], ad: &[u8], tag: u8) -> Result<Vec<u8>, ()>;
     fn pull(&mut self, c: &[u8], ad: &[u8]) -> String; // "ok:<m>:<tag>" | "err[:buf:tagvar]"
+    /// in-order delivery into a message buffer `short` bytes too small (classic API only; the object API sizes its own output, so
+    /// there the token is an ordinary delivery).  Returns (answer, consumed?)
+    fn pull_short(&mut self, c: &[u8], ad: &[u8], _short: usize) -> String {
+        self.pull(c, ad)
+    }
     fn rekey_s(&mut self);
     fn rekey_t(&mut self);
     fn states(&self) -> String;
@@ -45,6 +51,15 @@ impl Engine for Classic {
         let mut tag = 0xEEu8;
         match crypto_secretstream_xchacha20poly1305_pull(&mut self.t, &mut buf, &mut tag, c, if ad.is_empty() { None } else { Some(ad) }) {
             Ok(n) => format!("ok:{}:{:02x}", hex(&buf[..n]), tag),
+            Err(_) => format!("err:{}:{:02x}", hex(&buf), tag),
+        }
+    }
+    fn pull_short(&mut self, c: &[u8], ad: &[u8], short: usize) -> String {
+        let full = c.len().saturating_sub(17);
+        let mut buf = vec![SENT; full.saturating_sub(short.max(1))];
+        let mut tag = 0xEEu8;
+        match crypto_secretstream_xchacha20poly1305_pull(&mut self.t, &mut buf, &mut tag, c, if ad.is_empty() { None } else { Some(ad) }) {
+            Ok(n) => format!("ok:{}:{:02x}", hex(&buf[..n.min(buf.len())]), tag),
             Err(_) => format!("err:{}:{:02x}", hex(&buf), tag),
         }
     }
@@ -167,6 +182,18 @@ impl Engine for Sodium {
             "err".into()
         }
     }
+    fn pull_short(&mut self, c: &[u8], ad: &[u8], short: usize) -> String {
+        // libsodium's pull has no output length: the reference behaviour of a refused undersized buffer is "nothing happened"
+        if self.with_buf {
+            let full = c.len().saturating_sub(17);
+            if full == 0 {
+                return self.pull(c, ad);
+            }
+            format!("err:{}:ee", hex(&vec![SENT; full.saturating_sub(short.max(1))]))
+        } else {
+            self.pull(c, ad)
+        }
+    }
     fn rekey_s(&mut self) {
         unsafe { so::crypto_secretstream_xchacha20poly1305_rekey(&mut self.s) }
     }
@@ -222,6 +249,18 @@ fn run(e: &mut dyn Engine, toks: &[&str]) -> String {
                     if next < cts.len() {
                         let (c, ad) = cts[next].clone();
                         let r = e.pull(&c, &ad);
+                        if r.starts_with("ok") {
+                            next += 1;
+                        }
+                        r
+                    } else {
+                        "none".into()
+                    }
+                }
+                "Ds" => {
+                    if next < cts.len() {
+                        let (c, ad) = cts[next].clone();
+                        let r = e.pull_short(&c, &ad, p[1].parse().unwrap_or(1));
                         if r.starts_with("ok") {
                             next += 1;
                         }
